@@ -3,6 +3,7 @@
 use std::cell::RefCell;
 use std::io::{BufRead, Write};
 use std::panic::{catch_unwind, AssertUnwindSafe};
+use std::any::Any;
 use std::rc::Rc;
 
 use tulisp::{tulisp_fn, Error, ErrorKind, TulispContext, TulispObject, TulispValue};
@@ -94,6 +95,10 @@ fn new_ctx() -> Ctx {
     fn host_add(a: i64, b: i64) -> Result<i64, Error> {
         a.checked_add(b)
             .ok_or_else(|| Error::new(ErrorKind::OutOfRange, "overflow".to_string()))
+    }
+    #[tulisp_fn(add_func = "ctx", name = "host-box")]
+    fn host_box() -> Rc<dyn Any> {
+        Rc::new(42u8)
     }
     Ctx { ctx, probe }
 }
